@@ -638,11 +638,12 @@ class SOpaque:
     """an uninterpreted value: result of a call replaced by its contract, a table look-up with a symbolic
     key, text formatted from symbolic data.  Carries a tag and the operands for trace/evidence."""
 
-    __slots__ = ("tag", "args")
+    __slots__ = ("tag", "args", "truth")
 
     def __init__(self, tag, *args):
         self.tag = tag
         self.args = args
+        self.truth = None  # optionally: the truth value the contract gives this value (a bool / SBool input)
 
     def __repr__(self):
         return "SOpaque(%s)" % (self.tag,)
@@ -656,6 +657,8 @@ class SOpaque:
         return SOpaque("item-of:" + self.tag, self, idx)
 
     def __bool__(self):
+        if isinstance(self.truth, bool):
+            return self.truth
         raise Unsupported("truth value of an uninterpreted value (%s)" % self.tag)
 
     def _no_arith(self, *a):
